@@ -1,5 +1,5 @@
 (* Props/C10.v — Inference terminates and is non-destructive on every topology. *)
-From NIR Require Import Model.Graph Proofs.InferProofs Proofs.IdemProofs Proofs.InferSimProofs.
+From NIR Require Import Model.Graph Proofs.InferProofs Proofs.IdemProofs Proofs.InferSimProofs Proofs.RenameProofs.
 
 (* TERMINATION on every directed multigraph (cycles, self-loops, parallel edges, fan-in/out, unreachable
    components, any edge order): some fuel always suffices ... *)
@@ -80,6 +80,12 @@ Theorem c10_graph_frame : forall ch es gi go m g' oc, infer_types (Graph ch es g
 Proof. exact infer_types_frame. Qed.
 
 (* non-vacuity: a two-node cycle with a self-loop and a parallel edge terminates within the bound *)
+(* NODE NAMES ARE OPAQUE for inference too: inferring the renamed graph is renaming the inferred graph, with the same outcome,
+   for every injective renaming of the children *)
+Theorem c10_names_are_opaque : forall f g, injective f ->
+  infer_types (rename_graph f g) = (rename_graph f (fst (infer_types g)), snd (infer_types g)).
+Proof. exact infer_rename_graph. Qed.
+
 Example c10_example :
   let i := Leaf KInput [] (Some [("input", TArr [2])]) (Some [("output", TArr [2])]) in
   let s := Leaf KScale [] (Some [("input", TArr [2])]) (Some [("output", TArr [2])]) in
@@ -96,3 +102,4 @@ Print Assumptions c10_untouched.
 Print Assumptions c10_graph_frame.
 Print Assumptions c10_idempotent.
 Print Assumptions c10_idempotent_canonical.
+Print Assumptions c10_names_are_opaque.
